@@ -365,6 +365,9 @@ class Facts:
             inline.normalise(self)
             inline.fold_const_enums(self)
             inline.normalise_loops(self)
+            k_ = inline.load_known()
+            if k_ is not None:
+                inline.direct_closure_calls(self, k_)
         if os.environ.get('VF_NO_THREAD') != '1':
             import inline
             inline.thread_bools(self)
